@@ -1,7 +1,8 @@
 import Driver.Bep42
 import Driver.Tid
 import Driver.Token
-open Btdht.Driver
+import Driver.Storage
+open Btdht Btdht.Driver
 
 /-- Generic loop for a stateful engine: one op per stdin line, one canonical line out. -/
 partial def loopS {σ : Type} (h : IO.FS.Stream) (out : IO.FS.Stream) (step : σ → String → σ × String) (s : σ) : IO Unit := do
@@ -20,4 +21,5 @@ def main (args : List String) : IO UInt32 := do
   | ["bep42"] => loopS stdin stdout (stateless bep42Step) (); return 0
   | ["tid"] => loopS stdin stdout tidStep {}; return 0
   | ["token"] => loopS stdin stdout tokenStep {}; return 0
+  | ["storage"] => loopS stdin stdout storageStep Storage.empty; return 0
   | _ => IO.eprintln "usage: btdht_model <engine>"; return 2
